@@ -40,6 +40,24 @@ example : parseTop ⟨{}, .slice, .value⟩
     .ok (.obj [([0x61], .arr [.num (.pos 1), .bool true, .null, .str [0x78, 0xc3, 0xa9]]),
                ([0x62], .num (.float 0x8000000000000000))]) := rfl
 
+/-- the same with the side conditions packaged as `Spec.Canon.sideConditions` (C01's right-hand side) -/
+theorem c02_side_conditions (env : Env) (henv : env.tgt = .value) (bs : Bytes) (v : JV)
+    (h : parseTop env bs = .ok v) :
+    ∃ t, JsonText bs t ∧ canonM env.cfg t = some v ∧
+      Spec.Canon.sideConditions (specCfg env.cfg) (env.src != .str) t = true := by
+  obtain ⟨t, ht, hc, hd, hs, hu, hr⟩ := c02_denotes env henv bs v h
+  refine ⟨t, ht, hc, ?_⟩
+  have hu' : (!(env.src != .str) || Spec.Canon.stringsUtf8 t) = true := by
+    cases hsrc : (env.src != .str)
+    · rfl
+    · simp only [bne_iff_ne, ne_eq] at hsrc; simp [hu hsrc]
+  have hd' : ((specCfg env.cfg).limitOff || decide (depth t ≤ 127)) = true := by
+    rcases hd with hd | hd <;> simp [specCfg, hd]
+  simp only [Spec.Canon.sideConditions, hd', hs, hu', hr, Bool.and_self]
+
+/-- non-vacuity (`[[]]` from a `&str`) -/
+example : parseTop ⟨{}, .str, .value⟩ [0x5b, 0x5b, 0x5d, 0x5d] = .ok (.arr [.arr []]) := rfl
+
 /-- **C19 (skip language, soundness).** Skipped content is a JSON text. -/
 theorem c19_skip_sound (env : Env) (henv : env.tgt = .ignored) (bs : Bytes) (v : JV)
     (h : parseTop env bs = .ok v) : ∃ t, JsonText bs t := by
@@ -58,6 +76,9 @@ theorem c19_skip_value (env : Env) (henv : env.tgt = .ignored) (bs : Bytes) (v :
     (h : parseTop env bs = .ok v) : v = .null := by
   obtain ⟨t, _, hs⟩ := parseTop_sound env bs v h
   exact hs.ign henv
+
+/-- non-vacuity -/
+example : parseTop ⟨{}, .reader, .ignored⟩ [0x2d, 0x31, 0x65, 0x39, 0x39, 0x39, 0x39] = .ok .null := rfl
 
 /-! ### `canonM` spelled out for the two cheapest clauses -/
 
